@@ -420,6 +420,11 @@ class TextXMetaModel(DebugPrinter):
             root_namespace = current_namespace.rsplit(".", 1)[0]
             import_name = f"{root_namespace}.{import_name}"
 
+        # Empty path components (e.g. `sub..types`, `.sub.types`) name the
+        # same file as the canonical dotted name. Normalize the name so that
+        # each grammar file is loaded (and its classes created) only once.
+        import_name = ".".join(part for part in import_name.split(".") if part)
+
         import_file_name = "{}.tx".format(
             os.path.join(self.root_path, *import_name.split("."))
         )
